@@ -98,6 +98,54 @@ type unorderedSource struct {
 	val  ssa.Value // the unordered sequence as seen at a use site
 }
 
+// deadFunction: an unexported function or method that nothing in scope calls (also not through an interface of its
+// package) and whose value nothing takes.
+func deadFunction(c *core.Ctx, fn *ssa.Function) bool {
+	if fn == nil || fn.Object() == nil || fn.Object().Exported() {
+		return false
+	}
+	return len(c.Callers(fn)) == 0 && len(c.FuncValueUses(fn)) == 0
+}
+
+// mapRangeForwarder: fn ranges over one Go map and does nothing with the entries but hand them to its callback
+// parameter (besides taking and releasing a lock, and logging); it returns nothing.
+func mapRangeForwarder(fn *ssa.Function, cb *ssa.Parameter) bool {
+	if len(fn.AnonFuncs) != 0 {
+		return false
+	}
+	ranges, cbCalls := 0, 0
+	for _, b := range fn.Blocks {
+		for _, in := range b.Instrs {
+			switch x := in.(type) {
+			case *ssa.Range:
+				if _, ok := x.X.Type().Underlying().(*types.Map); !ok {
+					return false
+				}
+				ranges++
+			case ssa.CallInstruction:
+				com := x.Common()
+				if com.Value == ssa.Value(cb) {
+					cbCalls++
+					continue
+				}
+				if cal := core.Callee(com); cal != nil {
+					full := cal.String()
+					if strings.HasPrefix(full, "(*sync.Mutex).") || strings.HasPrefix(full, "(*sync.RWMutex).") {
+						continue
+					}
+				}
+				if core.IsLogCall(com) {
+					continue
+				}
+				return false
+			case *ssa.Store, *ssa.MapUpdate, *ssa.Send, *ssa.Go:
+				return false
+			}
+		}
+	}
+	return ranges == 1 && cbCalls == 1
+}
+
 // c10Census enumerates primary sources and use sites of unordered sequences.
 func c10Census(c *core.Ctx) (sources []unorderedSource, unorderedFns map[*ssa.Function]bool) {
 	unorderedFns = map[*ssa.Function]bool{}
@@ -136,6 +184,11 @@ func c10Census(c *core.Ctx) (sources []unorderedSource, unorderedFns map[*ssa.Fu
 				if _, isSig := p.Type().Underlying().(*types.Signature); isSig {
 					cbParams = append(cbParams, p)
 				}
+			}
+			if len(cbParams) == 1 && fn.Signature.Results().Len() == 0 && mapRangeForwarder(fn, cbParams[0]) {
+				forwarders[top] = true
+				changed = true
+				continue
 			}
 			if len(cbParams) != 1 || len(fn.Blocks) != 1 {
 				continue
@@ -196,6 +249,9 @@ func c10Census(c *core.Ctx) (sources []unorderedSource, unorderedFns map[*ssa.Fu
 				for _, in := range b.Instrs {
 					switch x := in.(type) {
 					case *ssa.Range:
+						if o := fn.Origin(); (o != nil && forwarders[o]) || forwarders[fn] {
+							continue
+						}
 						if _, ok := x.X.Type().Underlying().(*types.Map); ok {
 							sources = append(sources, unorderedSource{key: "maprange@" + roleName(c, f), kind: "maprange", fn: f, in: in})
 						}
@@ -748,6 +804,8 @@ func c10(c *core.Ctx, r *core.Report) {
 			// SORTED: keys are collected, sorted, then visited (in place, or by the caller of a key-collecting helper)
 			okSorted, why := sortedCollector(c, s)
 			r.Check(okSorted, "C10.R1", cons, pos, "SORTED: the map range only collects keys, which are sorted with a strict `<` before they are visited or handed back "+why)
+		case s.kind == "use" && !reach[s.fn] && !reach[core.TopLevel(s.fn)] && deadFunction(c, core.TopLevel(s.fn)):
+			r.Hold("C10.R1", cons, pos, "UNUSED: the use sits in an unexported function that nothing in scope calls or takes the value of")
 		case s.kind != "use" && !reach[s.fn] && !reach[core.TopLevel(s.fn)]:
 			r.Hold("C10.R1", cons, pos, "UNUSED: not reachable from App.Run / App.Close on the CHA call graph")
 		case (s.kind == "syncrange" || s.kind == "maprange") && ufns[core.TopLevel(s.fn)] && sliceResultOnlyAppends(s):
